@@ -106,4 +106,8 @@ impl<'a> WriteableGraph for EngineWriteTxn<'a> {
     fn staged_created_nodes_with_labels(&self) -> Vec<(InternalNodeId, Vec<String>)> {
         EngineWriteTxn::staged_created_nodes_with_labels(self)
     }
+
+    fn staged_edges(&self, node: InternalNodeId) -> Vec<super::EdgeKey> {
+        EngineWriteTxn::staged_edges(self, node)
+    }
 }
